@@ -442,7 +442,14 @@ impl Prop for C16 {
     fn id(&self) -> &'static str {
         "C16"
     }
+    fn engine(&self) -> &'static str {
+        "asim + tsim (shuttle)"
+    }
     fn gen(&self, rng: &mut Rng, _t: Tier) -> Value {
+        // one run in ten drives the service from several threads (engine B)
+        if rng.chance(1, 10) {
+            return serde_json::to_value(super::svcthreads::gen_reconnect(rng)).unwrap();
+        }
         loop {
             let s = gen16(rng);
             if valid16(&s) {
@@ -451,9 +458,15 @@ impl Prop for C16 {
         }
     }
     fn valid(&self, v: &Value) -> bool {
+        if super::svcthreads::is_threads(v) {
+            return super::svcthreads::valid_json(v) && matches!(parse::<super::svcthreads::ScnT>(v).map(|s| s.kind), Some(super::svcthreads::Kind::Reconnect { .. }));
+        }
         parse::<Scn16>(v).map(|s| valid16(&s)).unwrap_or(false)
     }
     fn run(&self, v: &Value, ctx: &mut RunCtx) -> RunOutput {
+        if super::svcthreads::is_threads(v) {
+            return super::svcthreads::run_json(v, ctx, "C16");
+        }
         run16(&parse::<Scn16>(v).unwrap(), ctx)
     }
     fn runs(&self, t: Tier) -> u64 {
